@@ -92,6 +92,10 @@ def plan(prop, tier, seed, ex_tables=None):
     if prop in ('C03', 'C04', 'C05', 'C06', 'C07', 'C08', 'C09', 'C10'):
         for t in corpus.biglat(seed, big=(tier == 'thorough')):
             out.append((t, False))
+    if prop in ('C06', 'C07', 'C08', 'C09', 'C10') or (prop == 'C15' and tier == 'thorough'):
+        for t in corpus.colossal(big=(tier == 'thorough')):
+            if prop != 'C15' or t.tag.endswith('plus1'):
+                out.append((t, False))
     if prop == 'C07' and tier == 'thorough':
         for t in corpus.marathon(seed):
             out.append((t, False))
